@@ -6,48 +6,52 @@ import RaftProofs.ProtoC4
 import RaftProofs.ProtoSafety
 
 /-!
-The commit-layer invariant `InvC` holds in every reachable state of P (fixed configuration with at
-least one voter).  The clause groups are preserved step by step (ProtoC1/2/3); Leader Completeness is
-re-derived in every state from the others (`invLC_of`).
+The commit-layer invariant `InvC` holds in every reachable state of P — for **every** history, with
+the voter configuration changing from election to election and from commit to commit (the
+configuration in force is part of the `win` / `commitLeader` events; their guards demand that the
+configurations of a leader commit and of an election that must agree are adjacent — equal, or one
+membership-change step apart — or else that the agreement is exhibited directly).  The clause groups
+are preserved step by step (ProtoC1/2/3); Leader Completeness is re-derived in every state from the
+others (`invLC_of`).
 -/
 namespace RaftModel.P
 
-theorem invC_init (c0 : Cfg) : InvC c0 init :=
-  ⟨invC1_init, invC2_init, invC3_init c0, by intro p hp; simp [init] at hp⟩
+theorem invC_init : InvC init :=
+  ⟨invC1_init, invC2_init, invC3_init ⟨[], []⟩, by intro p hp; simp [init] at hp⟩
 
 /-- all the layers together -/
-structure InvAll (c0 : Cfg) (s : PSys) : Prop where
-  v : InvV c0 (vsys s)
+structure InvAll (s : PSys) : Prop where
+  v : InvV (vsys s)
   r : InvR s
   l : InvL s
   a : InvA s
-  b : InvB c0 s
-  c : InvC c0 s
+  b : InvB s
+  c : InvC s
 
-theorem invAll_reach (c0 : Cfg) (hne : c0.incoming ≠ [] ∨ c0.outgoing ≠ []) (s : PSys) (h : ReachC c0 s) :
-    InvAll c0 s := by
+theorem invAll_reachR (s : PSys) (h : Reach s) : InvAll s := by
   induction h with
   | init =>
-    exact ⟨invV_reach c0 _ .init, invR_reach c0 _ .init, invL_reach c0 hne _ .init, invA_reach c0 _ .init,
-      invB_init c0, invC_init c0⟩
-  | step e hr hc hs ih =>
+    exact ⟨invV_reachR _ .init, invR_reachR _ .init, invL_reachR _ .init, invA_reachR _ .init,
+      invB_init ⟨[], []⟩, invC_init⟩
+  | step e hr hs ih =>
     rename_i s s'
-    have hr' : ReachC c0 s' := .step e hr hc hs
-    have hV' := invV_reach c0 _ hr'
-    have hR' := invR_reach c0 _ hr'
-    have hL' := invL_reach c0 hne _ hr'
-    have hA' := invA_reach c0 _ hr'
-    have hB' := invB_step c0 hne s s' e hc hs ih.v ih.r ih.l ih.a ih.b
-    have g := grow_step c0 hne s s' e hc ih.v ih.l hs
-    have h1 := invC1_step c0 hne s s' e hc hs ih.v hV' ih.r hR' ih.l hL' ih.a hA' ih.b hB' ih.c g
-    have h2 := invC2_step c0 hne s s' e hc hs ih.v hV' ih.r hR' ih.l hL' ih.a hA' ih.b hB' ih.c g (invG_reach c0 s hr)
-    have h3 := invC3_step c0 hne s s' e hc hs ih.v hV' ih.r hR' ih.l hL' ih.a hA' ih.b hB' ih.c g
-    exact ⟨hV', hR', hL', hA', hB', ⟨h1, h2, h3, invLC_of c0 hne s' hL' hA' hB' h2 h3⟩⟩
+    have hr' : Reach s' := .step e hr hs
+    have hV' := invV_reachR _ hr'
+    have hR' := invR_reachR _ hr'
+    have hL' := invL_reachR _ hr'
+    have hA' := invA_reachR _ hr'
+    have hB' := invB_step ⟨[], []⟩ s s' e hs ih.v ih.r ih.l ih.a ih.b
+    have g := grow_step s s' e ih.v ih.l hs
+    have h1 := invC1_step ⟨[], []⟩ s s' e hs ih.v hV' ih.r hR' ih.l hL' ih.a hA' ih.b hB' ih.c g
+    have h2 := invC2_step ⟨[], []⟩ s s' e hs ih.v hV' ih.r hR' ih.l hL' ih.a hA' ih.b hB' ih.c g (invG_reach' s hr)
+    have h3 := invC3_step ⟨[], []⟩ s s' e hs ih.v hV' ih.r hR' ih.l hL' ih.a hA' ih.b hB' ih.c g
+    exact ⟨hV', hR', hL', hA', hB', ⟨h1, h2, h3, invLC_of s' hL' hA' hB' h2 h3⟩⟩
 
-theorem invB_reach' (c0 : Cfg) (hne : c0.incoming ≠ [] ∨ c0.outgoing ≠ []) (s : PSys) (h : ReachC c0 s) :
-    InvB c0 s := (invAll_reach c0 hne s h).b
+/-- the fixed-configuration histories are histories -/
+theorem invAll_reach (c0 : Cfg) (_hne : c0.incoming ≠ [] ∨ c0.outgoing ≠ []) (s : PSys) (h : ReachC c0 s) :
+    InvAll s := invAll_reachR s (reach_of_reachC h)
 
 theorem invC_reach (c0 : Cfg) (hne : c0.incoming ≠ [] ∨ c0.outgoing ≠ []) (s : PSys) (h : ReachC c0 s) :
-    InvC c0 s := (invAll_reach c0 hne s h).c
+    InvC s := (invAll_reach c0 hne s h).c
 
 end RaftModel.P
